@@ -399,10 +399,30 @@ func genRT(tier string) []proto.RTItem {
 			items = append(items, proto.RTItem{Scn: r, Class: fmt.Sprintf("request/%s-%s/%s", pr.p, pr.m, what)})
 		}
 	}
+	// a destination that never answers and six end-to-end probes: the probes are launched one pacing delay apart
+	// (MaxTTL*Timeout/6 = 200 ms) and run side by side, so the request takes five delays plus ONE probe's listening time
+	// (timeout + one send delay + one poll interval; serial: timeout + poll), not six listening times
+	for _, pr := range []struct{ p, m, h string }{{"udp", "", "203.0.113.77"}, {"icmp", "", "203.0.113.77"}, {"tcp", "syn", "203.0.113.77"}} {
+		r := proto.RTScn{Hostname: pr.h, Protocol: pr.p, Method: pr.m, MinTTL: 1, MaxTTL: 4, DelayMs: 10, TimeoutMs: 300, Queries: 1, E2e: 6, Dest: 0, IPIDBase: 800, EchoBase: 80}
+		r.Hops = map[int]proto.HopSpec{1: {Silent: true}, 2: {Silent: true}, 3: {Silent: true}, 4: {Silent: true}}
+		one := 300 + 10 + 100 + 100
+		items = append(items, proto.RTItem{Scn: r, Class: fmt.Sprintf("request/%s-%s/silent-destination-six-probes", pr.p, pr.m), Note: map[string]string{"limit_ms": fmt.Sprint(5*200 + one)}})
+	}
 	return items
 }
 
 func checkRT(it *proto.RTItem, r *proto.RTResult) []proto.Issue {
+	if l := it.Note["limit_ms"]; l != "" {
+		var ms int
+		fmt.Sscan(l, &ms)
+		if time.Duration(r.ElapsedNs) > time.Duration(ms)*time.Millisecond {
+			return []proto.Issue{{Key: "bound-exceeded", Detail: fmt.Sprintf("request returned after %s, bound %dms", time.Duration(r.ElapsedNs), ms)}}
+		}
+		if r.Err != nil {
+			return []proto.Issue{{Key: "silence-failed-the-request", Detail: r.Err.Error()}}
+		}
+		return nil
+	}
 	// the runs themselves are bounded by timeout + n*delay + poll (serial: per TTL); enrichment by 5s; public IP by 5*(2s+op)
 	limit := 4*(300+100)*time.Millisecond + 600*time.Millisecond
 	if it.Scn.ReverseDNS {
